@@ -133,7 +133,7 @@ pub fn generate(_ctx: &mut Ctx, seed: u64, i: usize, kind: &str, always_malforme
         // the tag sits on a middle line of a multi-line comment that continues after it
         let before = rng.below(3);
         let after = rng.below(3);
-        let star = if lang.open.starts_with("/*") && rng.chance(1, 2) { " * " } else { "   " };
+        let star = if lang.open.starts_with("/*") && rng.chance(1, 2) { [" * ", " * ", "\u{a0}* ", "\u{3000}* "][rng.below(4)] } else { "   " };
         src += &format!("{indent}{}intro", lang.open);
         for k in 0..before { src += &format!("\n{indent}{star}line {k}"); }
         src += &format!("\n{indent}{star}{tag}");
